@@ -32,6 +32,14 @@ CHECKS = {
         "outside": "concurrent enqueue/check-in (two-thread harness not built in this revision); service Get path",
         "min_completed": 3,
     },
+    "C08": {
+        "groups": [
+            {"pkg": "Havoc/pkg/agent", "with": ["Havoc/pkg/logr"], "entries": ["H_c08_chain"], "flags": ["-tags", "uf_aes"], "shards": 3},
+        ],
+        "bounds": "chains of 1..3 SMB hops below a direct agent; every agent id with an arbitrary top byte (ids >= 0x80000000 included) and fixed distinct low 24 bits; task = arbitrary command / request id / int argument / byte argument of 0..2 bytes; AES-CTR as uninterpreted per-key stream.",
+        "outside": "depth > 3; fully arbitrary ids (thorough tier: target id fully symbolic); upward relay is covered by C05/C01 harnesses with AES as identity",
+        "min_completed": 3,
+    },
     "C03": {
         "groups": [
             {"pkg": "Havoc/pkg/common/parser", "entries": ["H_c03_int", "H_c03_bytes"]},
@@ -69,6 +77,8 @@ LEVELS = {
     },
     "C05": {"text": "Bounded symbolic execution of the real TaskDispatch gate for every command id with symbolic request ids and bodies against an effect recorder; the negative statement (nothing happens for a non-outstanding id) is decided by the solver for all ids and bodies in the bound.",
             "note": "Trusted: go/ssa, gosx, z3; recorder TeamServer, os/net effect stubs; single-package command table transcribed from Command.c."},
+    "C08": {"text": "Bounded symbolic execution of the real PivotAddJob/BuildPayloadMessage wrapping for chains of 1..3 hops, unwrapped by a reference implementation of the Demon's pipe framing with each hop's own key; AES-CTR is an uninterpreted key stream so a layer encrypted under the wrong key cannot decode.",
+            "note": "Trusted: go/ssa, gosx, z3 (QF_UFBV), the reference decoder transcribed from Command.c/TransportSmb.c."},
     "C04": {"text": "Bounded symbolic execution of GetQueuedJobs/AddJobToQueue/UploadMemFileInChunks against a FIFO reference; sizes are symbolic so the 30 MB boundary and chunk boundaries are decided by the solver, not sampled.",
             "note": "Sequential histories only; the concurrent part of the property is not covered in this revision."},
     "C03": {"text": "Bounded symbolic execution of pkg/common/parser and the registration path against a reference encoder mirroring Package.c; all byte values for every buffer length in the bound, so every residue of trailing bytes is covered.",
